@@ -7,6 +7,13 @@ func init() {
 	registerRule("R04", func(c *Ctx) { c.run("R03") })
 	registerRule("R05", ruleR05)
 	registerRule("R14", ruleR14)
+	registerRule("R34", ruleR34)
+	registerRule("R12", ruleR12)
+	registerRule("R06", ruleR06R07)
+	registerRule("R07", func(c *Ctx) { c.run("R06") })
+	registerRule("R10", ruleR10)
+	registerRule("R27", ruleR27R28)
+	registerRule("R28", func(c *Ctx) { c.run("R27") })
 
 	registerProp(&propSpec{ID: "C01", Level: "other",
 		Rules: []string{"R01", "R02", "R03", "R05"},
@@ -21,4 +28,9 @@ func init() {
 		Explain: "On every CFG path of every Insert/Delete copy (6 kinds) the size counter changes by one exactly when one leaf is linked/unlinked (R03/R04 path automaton over link, relink, overwrite, unlink and size events), " +
 			"nobody else writes the counter and Size() returns it unmodified (R14); key-exhausted paths are infeasible where keys are prefix-free (R05).",
 		NotDecided: "That linking a leaf corresponds to storing a new key (that is C01's value-level part) – the rule decides the pairing of structural events with the counter, not map semantics."})
+	registerProp(&propSpec{ID: "C19", Level: "translation_validation",
+		Rules: []string{"R34"},
+		Explain: "Translation validation of the generated file: the checker extracts the instantiation table from the AST of cmd/go-art/main.go (constants only), executes cmd/go-art/tree.tmpl with it, formats the result with go/format and compares it byte for byte with trees.go, one comparison per instantiation plus the header; it also checks the go:generate directives and that trees.go is gofmt-stable.",
+		NotDecided: "Nothing value-level remains: the property is a textual equality. Trusted: text/template and go/format of the Go release the checker is built with (assumed to agree with the release used to regenerate).",
+		Technique:  "static translation validation: re-render the code-generation template from the generator's AST and diff against the checked-in file", DesignRef: "§4 C19 R34"})
 }
